@@ -168,7 +168,7 @@ def fill_cases(draw):
     seed = draw(st.integers(0, 2 ** 32 - 1))
     zero_some = draw(st.booleans())
     return {"system": system, "order": list(order), "extra": extra, "nrows": nrows, "seed": seed, "zero_some": zero_some,
-            "zero_one_row": draw(st.booleans())}
+            "zero_one_row": draw(st.booleans()), "index": draw(st.sampled_from(["default", "default", "reversed", "offset", "float"]))}
 
 
 def subset_from_order(system, order, extra):
@@ -196,8 +196,9 @@ def fill_oracle(ctx, c):
     idx = [KEYS21.index(k) for k in keys]
     case = dict(c, subset=["%d%d" % k for k in keys])
     bucket = "C08/system=%s" % system
+    from ..fillhelp import reindex
     try:
-        out = call_fill(make_table(w[:, idx], keys), system)
+        out = call_fill(reindex(make_table(w[:, idx], keys), c.get("index", "default")), system)
     except Exception as e:  # noqa
         raise PropertyViolation(bucket + "/sufficient-refused", "sufficient consistent table refused: %s: %s" % (
             type(e).__name__, str(e)[:200]), case)
@@ -212,7 +213,8 @@ def sub_fill(ctx):
         nt = c["system"] != "triclinic" and len(keys) < 21 and nat_nonzero
         ctx.case({"system": c["system"], "subset": ["%d%d" % k for k in keys], "nrows": c["nrows"], "seed": c["seed"]}, nt,
                  classes=[c["system"], "extra=%d" % c["extra"], "zeroed-parameters" if c["zero_some"] else "all-parameters-nonzero",
-                          "parameter-zero-at-one-volume" if c.get("zero_one_row") and c["nrows"] > 1 else "no-single-row-zero"])
+                          "parameter-zero-at-one-volume" if c.get("zero_one_row") and c["nrows"] > 1 else "no-single-row-zero",
+                          "row-index-" + c.get("index", "default")])
 
     ctx.run_given(body, fill_cases(), max_examples=ctx.n(9 * 120, 9 * 5000), shrink=True)
 
